@@ -618,6 +618,31 @@ def r3_monotone_test(ctx):
     ctx.check(len(cps) == 2, ft, f"works on copies: {cps}",
               "find_turning_point normalises its inputs in place")
     cnames = sorted(norm(st.targets[0]) for st in cpa)
+    # "farthest from the contact point in the direction of indentation":
+    # both normalised coordinates are clamped on one side only (what lies
+    # on the other side of the contact point / below the noise level is 0)
+    clamps = 0
+    for st in walk_no_nested(ft, False):
+        if isinstance(st, ast.Assign) and len(st.targets) == 1 and \
+                isinstance(st.targets[0], ast.Subscript) and norm(
+                    st.targets[0].value) in cnames and isinstance(
+                    st.value, ast.Constant) and st.value.value == 0:
+            v_ = norm(st.targets[0].value)
+            mk = st.targets[0].slice
+            clamps += 1
+            one_sided = isinstance(mk, ast.Compare) and len(mk.ops) == 1 \
+                and isinstance(mk.ops[0], (ast.Lt, ast.LtE)) and norm(
+                    mk.left) == v_
+            ctx.check(one_sided, st, f"{v_} clamped on one side: "
+                      f"{norm(mk)[:40]}",
+                      f"find_turning_point zeroes `{v_}` where "
+                      f"`{norm(mk)[:50]}` - not a one-sided `{v_} < "
+                      "threshold`: values on the far side of the contact "
+                      "point (negative forces of an adhesion dip or a "
+                      "drifting retract part) keep their magnitude and can "
+                      "become 'the farthest point', so the turning point is "
+                      "no longer the point of maximum indentation")
+    ctx.floor("one-sided clamps in find_turning_point", clamps, 2)
     rets = [r for r in walk_no_nested(ft, False) if isinstance(r, ast.Return)]
     R = Resolver(ft, keep=set(cnames))
     ok = False
